@@ -13,7 +13,7 @@ TraceInit == GInit /\ DInit /\ l = 1 /\ TLCSet(1, 1)
 
 TScenario == IsEvent("Scenario") /\ phase \in {"idle", "done"} /\ Load(Trace[l])
              /\ merged' = None /\ seen' = {} /\ npay' = 0 /\ lastHN' = "-" /\ failed' = {} /\ perrs' = <<>> /\ undeliv' = 0
-TStart    == IsEvent("Start")    /\ Start(Trace[l].p) /\ UNCHANGED dvars
+TStart    == IsEvent("Start")    /\ StartCf(Trace[l].p, Trace[l]) /\ UNCHANGED dvars
 TEnd      == IsEvent("End")      /\ End(Trace[l].p) /\ UNCHANGED dvars
 TErr      == IsEvent("Err")      /\ AddErr(Trace[l].p, Trace[l].c) /\ UNCHANGED dvars
 TRecover  == IsEvent("Recover")  /\ Recover /\ UNCHANGED dvars
